@@ -591,10 +591,15 @@ func (r *Request) reply(payload []byte) {
 
 func (r *Request) executeHandler() {
 	// Recover from panics inside handlers
+	panicking := true
 	defer func() {
 		v := recover()
 		if v == nil {
-			return
+			if !panicking {
+				return
+			}
+			// With panic(nil), recover returns nil in modules using go < 1.21
+			v = errors.New("panic called with nil argument")
 		}
 
 		var str string
@@ -632,6 +637,13 @@ func (r *Request) executeHandler() {
 		r.s.errorf("Error handling request %s: %s\n\t%s", r.msg.Subject, str, string(debug.Stack()))
 	}()
 
+	r.callHandler()
+	panicking = false
+}
+
+// callHandler calls the handler for the request type and method, and makes
+// sure a reply is sent.
+func (r *Request) callHandler() {
 	hs := r.h
 
 	switch r.rtype {
